@@ -406,8 +406,12 @@ def _monitor(res, case, ctx, rqs, pp, rpp, impl, rows):
         if len(members) > 1:
             def ident(m):
                 d = {k: m[k] for k in ('src', 'dst', 'type', 'mode', 'spacing', 'include', 'strict', 'bidir')}
-                d['tx_power'] = m.get('tx_power')
                 d['power'] = m['power'] if m['power'] is not None else float(dbm2watt(eq['SI']['default'].power_dbm))
+                # effective transceiver power: own tx_power, else the library default, else (no default) the request's power
+                d['tx_power'] = m.get('tx_power')
+                if d['tx_power'] is None:
+                    dflt = eq['SI']['default'].tx_power_dbm
+                    d['tx_power'] = float(dbm2watt(dflt)) if dflt is not None else d['power']
                 return d
             k0 = ident(members[0])
             for m in members[1:]:
@@ -565,9 +569,17 @@ def _monitor(res, case, ctx, rqs, pp, rpp, impl, rows):
                     res.fail(f'csv: {what}: path_bandwidth column {row["path_bandwidth"]} for {gb} Gbit/s')
                 lab_txt = f'{[n for n in rq.N]}, {[m for m in rq.M]}'
                 import re as _re
-                cells = [x.strip() for x in _re.split(r'[\[\],|]', row['spectrum (N,M)']) if x.strip()]
-                if sorted(cells) != sorted(str(x) for x in list(rq.N) + list(rq.M)):
-                    res.fail(f'csv: {what}: spectrum column {row["spectrum (N,M)"]!r} does not state the assigned N={rq.N} M={rq.M}')
+                groups = _re.findall(r'\[([^\]]*)\]', row['spectrum (N,M)'])
+                pairs = None
+                if len(groups) == 2:
+                    ns, ms = ([x.strip() for x in g.split(',') if x.strip()] for g in groups)
+                    if len(ns) == len(ms):
+                        pairs = sorted(zip(ns, ms))
+                if pairs != sorted((str(n_), str(m_)) for n_, m_ in zip(rq.N, rq.M)):
+                    res.fail(f'csv: {what}: spectrum column {row["spectrum (N,M)"]!r} does not state the assigned (N, M) pairs '
+                             f'{list(zip(rq.N, rq.M))}')
+                res.stats['served_with_slot_n_zero'] += int(0 in list(rq.N))
+                res.stats['served_multislot_n_not_ascending'] += int(list(rq.N) != sorted(rq.N) and len(set(rq.M)) > 1)
                 res.cmp_exact('jsontocsv.spectrum_text', row['spectrum (N,M)'], lab_txt)
             else:
                 if row['Pass?'] != reason:
